@@ -62,7 +62,7 @@ P["C17"] = dict(
          "every cursor store classified as inside the viewport (constant 1, clamped argument, guarded increment, wrap test), every cursor/viewport "
          "change followed by a recomputation of the derived buffer offset, and the offset formula itself (polynomial normal form). Equality with a "
          "reference terminal over all byte streams, scrolling contents and buffer memory safety are not decided. "
-         "Added: (R4) the buffer-scrolling arm of lf moves exactly the viewport's lines up by one stride and blanks exactly viewportWidth cells. Also (R1): the TAB loop runs tabWidth times with no exit other than its counting test, and carriage return stores 1 into cursorX (in the helper or in place). VT.Write hands data[T] to WriteByte for T = 0..len(data)-1 and nothing on the way ranges over a string.",
+         "Added: (R4) the buffer-scrolling arm of lf moves exactly the viewport's lines up by one stride and blanks exactly viewportWidth cells, the two on exactly the same paths (after the move lf cannot return without the blanking; the blanking is unreachable from the arms that only move the cursor or the viewport). Also (R1): the TAB loop runs tabWidth times with no exit other than its counting test, and carriage return stores 1 into cursorX (in the helper or in place). VT.Write hands data[T] to WriteByte for T = 0..len(data)-1 and nothing on the way ranges over a string.",
     technique="case-set exhaustiveness + SSA dominance facts per phi edge + must-pass-through + polynomial normal form",
     ref="DESIGN.md section 3, C17",
 )
@@ -220,6 +220,19 @@ P["C10"] = dict(
 
 ALL = ["C%02d" % i for i in range(1, 21)]
 
+# rules of a neighbouring property that this property's check evaluates as well (checker/imports.go)
+IMPORTS = {
+    "C01": "C02.R3 (exact replay of the early-boot allocations), C03.R1 (pool bitmap layout), C03.R2 (bad frees rejected)",
+    "C03": "C02.R3 (exact replay of the early-boot allocations), C01.R4 (complete bitmap scan, one bit encoding)",
+    "C05": "C07.R1 (reservations neither overlap nor wrap), C04.R1 (Map writes exactly the requested entry)",
+    "C06": "C04.R1, C04.R2 (Map writes exactly the requested entry and invalidates it)",
+    "C07": "C04.R6 (page count of the region helpers)",
+    "C09": "C08.R1-R3 (the spinlock itself), C03.R3 (bit changes paired with counter updates)",
+    "C11": "C12.R4 (resolve passes bounded, progress counted and reset)",
+    "C12": "C13.R5 (index bounds in ObjectTree.Find / findRelative)",
+    "C18": "C17.R4 (buffer scrolled by exactly one line and blanked), C19.R1-R6 (the shipped consoles paint exactly the addressed cells)",
+}
+
 def main():
     checks = []
     na = []
@@ -235,7 +248,7 @@ def main():
             "evidence_file": "/verif/evidence/%s.json" % pid,
             "replay_cmd_template": "cat {path}; ./check %s quick" % pid,
             "engine": "fireflycheck",
-            "level_claimed": {"category": "other", "text": e["text"], "design_ref": e["ref"]},
+            "level_claimed": {"category": "other", "text": e["text"] + (" Also evaluates, because this property rests on them, rules of neighbouring properties: " + IMPORTS[pid] + " (a second complete analysis; DESIGN.md sections 0 and 10)." if pid in IMPORTS else ""), "design_ref": e["ref"]},
             "level_note": COMMON_NOTE + (" " + e["note_extra"] if e.get("note_extra") else ""),
             "technique": e["technique"],
         })
